@@ -2,7 +2,8 @@
 ID = 'C10'
 FUNCTIONS = [('devices', 'EDFA'), ('devices', 'BPF'), ('typing', 'electrical_signal.__mul__'), ('typing', 'optical_signal.__init__'),
              ('utils', 'idb')]
-BOUNDS = {'fields': 'N <= 2 (quick) / 3 (thorough) symbolic complex samples, one and two polarisations, with and without noise',
+BOUNDS = {'call-history differential': 'for the blocks of this property registered in vf/history.py (concrete orders / bandwidths / gains / gv configurations, symbolic samples): the call repeated in a session that first ran it with one parameter or one gv setting changed equals the call in a fresh library instance',
+          'fields': 'N <= 2 (quick) / 3 (thorough) symbolic complex samples, one and two polarisations, with and without noise',
           'parameters': 'G in [0,40] dB, NF in [3,10] dB, wavelength, R (hence f0, fs): symbolic; the 4*N ASE draws are symbolic',
           'BW option': 'records of 17 samples at BW/fs in {0.25, 0.5, 0.75} (thorough: 0.1 .. 0.95; concrete Bessel design, symbolic samples, seed-replayed ASE)'}
 OUTSIDE = ['sample-power statistics of an ASE realisation (the clause is decided as: the ASE term is sqrt(P_ase/4) times 4*N independent '
@@ -124,4 +125,6 @@ def configs(tier):
     for pol in ((1,) if q else (1, 2)):
         for bw in ((0.5e9, 1e9, 1.5e9) if q else (0.2e9, 0.5e9, 0.8e9, 1e9, 1.2e9, 1.5e9, 1.9e9)):      # fs = 2e9: every realisable bandwidth class, fs/2 included
             out.append((f'edfa-bw{bw:g}-pol{pol}', scen_bw, dict(n=17, pol=pol, BW=bw), {'validate': 1}))
+    from vf import history as _history        # call-history differential of this property's blocks (vf/history.py)
+    out += _history.configs_for('C10')
     return out
